@@ -81,3 +81,7 @@ Section Proofs.
     unfold react. destruct (nth_error responses i) as [[s|[s| |]|]|]; intros [= <- <-]; eauto.
   Qed.
 End Proofs.
+
+Lemma spawn_timeout_spec :
+  spawn_timeout None = Some 30%Z /\ spawn_timeout (Some None) = None /\ forall t, spawn_timeout (Some (Some t)) = Some t.
+Proof. repeat split. Qed.
